@@ -566,6 +566,8 @@ func c10(c *core.Ctx) {
 			}
 			c.Check("filterLogsByType:selects-by-LogType", "value-flow", selOK, ff.Pos(), "filterLogsByType returns the processor's logs whose LogType equals the asked type")
 		}
+		// the logs the ranking gets are merged after the last producer of VotesLogs (one log per candidate: the index takes the first)
+		c01FinalizeOrder(c)
 		// needMerge(VotesLog)
 		nm := c.Fn("chain/account.needMerge")
 		// partial evaluation of needMerge for the constant VotesLog (if-chains, switches and write-once lookup tables are all evaluated)
